@@ -184,10 +184,20 @@ def _errors(spec):
     ref = tab["call"] if "call" in tab else None
     nop = I.render(isa, tab["nop"])
     if what in ("undef", "undef-allowed"):
-        text = (I.render(isa, ref, "nosuch") if ref else f".long nosuch") + "\n" + (I.render(isa, ref, "nosuch") if ref else ".long nosuch") + "\n"
-        a = Assembler(m, allow_undef_symbols=(what == "undef-allowed"))
+        # the unknown name may look like a temporary label of the target, the assembler may have been given a
+        # suffix for temporary labels, and the references may arrive in one or in two assemble() calls
+        uname = (I.temp_prefix(isa, fmt) + "nosuch") if spec.get("temp") else "nosuch"
+        usuffix = "_9" if spec.get("suffix") else None
+        line = (I.render(isa, ref, uname) if ref else f".long {uname}") + "\n"
+        out.classes += [f"temp={bool(spec.get('temp'))}", f"suffix={bool(usuffix)}", f"two_calls={bool(spec.get('two_calls'))}"]
+        a = Assembler(m, allow_undef_symbols=(what == "undef-allowed"), temp_symbol_suffix=usuffix)
+        text = line + line
         try:
-            a.assemble(text)
+            if spec.get("two_calls"):
+                a.assemble(line)
+                a.assemble(line)
+            else:
+                a.assemble(text)
             res = a.finalize()
         except UndefSymbolError:
             if what == "undef-allowed":
@@ -199,10 +209,19 @@ def _errors(spec):
         if what == "undef":
             out.fail("C13.errors", "undefined-symbol-accepted", text)
             return out
-        cands = [s for s in res.symbols if s.name == "nosuch"]
+        cands = [s for s in res.symbols if s.name == uname or (usuffix and s.name == uname + usuffix)]
         if len(cands) != 1 or not isinstance(cands[0].referent, gtirb.ProxyBlock) or cands[0].referent not in res.proxies:
-            out.fail("C13.errors", "not-exactly-one-proxy-symbol", f"{len(cands)}")
-        if any(s.name == "nosuch" for s in m.symbols):
+            out.fail("C13.errors", "not-exactly-one-proxy-symbol", f"{uname}: {[s.name for s in res.symbols]}")
+        else:
+            for sname, sect in res.sections.items():
+                for off, e in sect.symbolic_expressions.items():
+                    if e.symbol is not cands[0]:
+                        out.fail("C13.errors", "expression-refers-to-another-symbol-object", f"{sname}+{off}: {e.symbol.name}")
+            if len({id(p) for p in res.proxies}) != 1:
+                out.fail("C13.errors", "more-than-one-proxy-for-one-undefined-name", f"{len(res.proxies)} proxies")
+        if len({s.name for s in res.symbols}) != len(list(res.symbols)):
+            out.fail("C13.errors", "two-symbols-with-one-name", f"{sorted(s.name for s in res.symbols)}")
+        if any(s.name.startswith(uname) for s in m.symbols):
             out.fail("C13.errors", "assembler-modified-the-module", "")
         return out
     # a name defined twice: global or temporary label, with or without the
@@ -390,7 +409,11 @@ def _chunks(spec):
             else:
                 for t in texts:
                     a.assemble(t, syntax)
-            results.append(("ok", _canon_result(a.finalize(), ms)))
+            fin = a.finalize()
+            names = [s_.name for s_ in fin.symbols]
+            if len(set(names)) != len(names):
+                out.fail("C13.unique", "two-symbols-with-one-name", f"{mode}: {sorted(n for n in names if names.count(n) > 1)[:4]}")
+            results.append(("ok", _canon_result(fin, ms)))
         except Exception as e:
             results.append(("exc", exc_kind(e) + ":" + repr(e)[:160]))
     cut_after = []
